@@ -113,6 +113,46 @@ def _select_literals(ev):
     return sorted(set(lits)) if len(set(lits)) >= 2 else None
 
 
+def _reads_buffer(body, op, at, buf):
+    """does the value of `op` depend on the content of the output buffer?"""
+    sl = flow.backward(body, op, at=at)
+    if isinstance(buf, tuple):
+        return any(l == 1 and [e for e in pr if isinstance(e, tuple) and e and e[0] == "f" and e[1] == buf[1]] for l, pr in
+                   [(l, flow.norm_proj(pr) if not (pr and isinstance(pr[0], tuple)) else pr) for l, pr in sl.params])
+    return buf in sl.locals
+
+
+def content_dependent(blocks, ev):
+    """the choice between the alternatives (appends / literal definitions in `blocks`) is made by a test that reads the text written so far"""
+    body, buf = ev["body"], ev.get("buf")
+    if buf is None or len(set(blocks)) < 2:
+        return False
+    be = frozenset(flow.back_edges(body))
+    for s in body.live_blocks():
+        t = body.blocks[s]["term"]
+        if t["k"] != "switch":
+            continue
+        sides = []
+        for blk in set(blocks):
+            labs = frozenset(lab for lab, tb in body.succ_edges(s) if blk in flow.reach(body, [tb], removed=be, stop_blocks=frozenset([s])))
+            sides.append(labs)
+        if any(not x for x in sides) or len(set(sides)) < 2 or any(a & b for i, a in enumerate(sides) for b in sides[i + 1:]):
+            continue
+        # the switch separates the alternatives: what does it test?
+        from . import paths
+        src = paths.switch_source(body, t)
+        ops = []
+        if src and src[0] == "call":
+            ops = list(src[1]["args"])
+        elif src and src[0] == "bin":
+            ops = list(src[1]["ops"])
+        else:
+            ops = [t["discr"]]
+        if any(_reads_buffer(body, o, s if not (src and src[0] in ("call", "bin")) else src[3], buf) for o in ops):
+            return True
+    return False
+
+
 def _conditional(loop, sep, nxt):
     """inside one iteration the next item can be reached without executing the separator append"""
     es = [a["ev"] for a in sep["alts"]] if sep["t"] == "ALT" else [sep["ev"]]
@@ -145,7 +185,12 @@ def normalise(nodes, loop=None):
                     e2 = dict(n["ev"])
                     e2["consts"] = [l]
                     alts.append(E(e2))
-                out.append({"t": "ALT", "alts": alts, "select": True})
+                node = {"t": "ALT", "alts": alts, "select": True}
+                defs = [d["bi"] for l, _ in (flow.resolve_chain(n["ev"]["body"], n["ev"]["args"][0]) or []) for d in n["ev"]["body"].defs().get(l, [])
+                        if d["kind"] == "assign" and d["rv"]["k"] == "use" and "c" in d["rv"]["ops"][0]]
+                if content_dependent(defs, n["ev"]):
+                    node["content_dependent"] = True
+                out.append(node)
                 continue
         out.append(n)
     nodes = out
@@ -161,7 +206,10 @@ def normalise(nodes, loop=None):
                 grp.append(nodes[j])
                 j += 1
             if len(grp) > 1:
-                out.append({"t": "ALT", "alts": grp})
+                node = {"t": "ALT", "alts": grp}
+                if content_dependent([g["ev"]["bi"] for g in grp], grp[0]["ev"]):
+                    node["content_dependent"] = True
+                out.append(node)
                 i = j
                 continue
         out.append(n)
@@ -238,6 +286,9 @@ def match(nodes, spec, match_event, path=""):
                 else:
                     used.add(hit)
         elif s["t"] == "JOIN":
+            if n["sep"].get("content_dependent"):
+                bad.append("%s: the separator is chosen by a test on the text written so far, not by the position of the item: what an earlier component "
+                           "contains changes how the items are joined" % where)
             bad += match([n["sep"]], [s["sep"]], match_event, where + ".sep")
             bad += match(n["items"], s["items"], match_event, where + ".item")
         else:
